@@ -66,7 +66,7 @@ _MY_UPPER = [k.upper() for k in MY_KEYS]
 _EXTRA_SRC = None
 _EXTRA = []          # keys present in the repository list but not in MY_KEYS (DONT-CARE zone)
 
-MTYPES = ['dict', 'odict', 'ddict', 'proxy', 'proxyc', 'custom', 'chain', 'lazy', 'flaky', 'lru', 'readcount']
+MTYPES = ['dict', 'odict', 'ddict', 'proxy', 'proxyc', 'custom', 'chain', 'lazy', 'flaky', 'lru', 'readcount', 'genitems']
 SECRETS = [None, '***', '???', '', 'XXXX', '<redacted>', '*', 'hidden', 'secret=1', 'päss✓',
            'password']
 
@@ -151,6 +151,21 @@ class ReadCounting(dict):
         type(self).reads += 1
         self.reads_here = getattr(self, 'reads_here', 0) + 1
         return dict.__getitem__(self, key)
+
+
+class GenItemsMapping(PairsMapping):
+    """A Mapping whose items() / keys() / values() are one-shot iterators (generators, zip objects), as database row
+    proxies and lazy config sections return: each call gives a fresh iterator, but one iterator can be walked once."""
+    __slots__ = ()
+
+    def items(self):
+        return ((k, v) for k, v in self._pairs)
+
+    def keys(self):
+        return (k for k, _v in self._pairs)
+
+    def values(self):
+        return iter([v for _k, v in self._pairs])
 
 
 class MyStr(str):
@@ -269,6 +284,8 @@ class Builder:
                 f = FlakyMapping(base.items())
                 self.flaky.append(f)
                 return f
+            if m == 'genitems':
+                return GenItemsMapping(base.items())
             if m == 'lru':
                 return LRU(base)
             if m == 'readcount':
